@@ -101,7 +101,8 @@ BSources == Nfs \cup {0}                    \* 0 = random positive b coefficient
 C13_Cells ==
   {[clause |-> cl, name |-> j, bsrc |-> b, dir |-> d] :
      cl \in {"zero", "local", "taylor"}, j \in DOMAIN Integral, b \in BSources, d \in Dirs}
-  \cup {[clause |-> cl, name |-> "roots", bsrc |-> b, dir |-> "-"] : cl \in {"root", "vieta"}, b \in BSources}
+  \* the cubic roots are quantified over the N3LO beta polynomial of the physical theory only
+  \cup {[clause |-> cl, name |-> "roots", bsrc |-> b, dir |-> "-"] : cl \in {"root", "vieta"}, b \in Nfs}
 C13_InDomain(c) == c.clause = "taylor" => Integral[c.name].level >= 2  \* j12 has no expansion
 C13_Req(c) ==
   CASE c.clause = "zero" -> Dec(12, "rounding")
@@ -142,7 +143,7 @@ C09_Cells == {[clause |-> "reduce", method |-> m, order |-> n, nf |-> f, dir |->
                 m \in Methods, n \in 2..4, f \in Nfs, d \in Dirs}
 C09_Req(c) == IF Discretised(c.method, c.order)
               THEN Exp(158, 9000, "convergent")     \* shrinks >= 3x per refinement step
-              ELSE Dec(9, "rounding")
+              ELSE Dec(11, "rounding")
 
 (* ================================ C11 Conserve ================================ *)
 ItersFor(m, n) == IF Discretised(m, n) THEN {1, 2, 7, 50} ELSE {1}
